@@ -42,6 +42,15 @@ func (x *FnCtx) call(fr *Frame, st *State, in ssa.Value, c *ssa.CallCommon) Valu
 				return x.dispatchCall(fr, st, recv, full, cands, site, resT)
 			}
 		}
+		if fr.ctr != nil && fr.depth == 0 {
+			if k, ok := fr.ctr.Use[strings.TrimPrefix(site, fr.prefix)]; ok {
+				if ctr := x.eng.specs.Contracts[k]; ctr != nil {
+					x.usedAssumed["call site "+site+" of "+shortFn(x.key)+": "+k] = true
+					return x.applyContract(fr, st, ctr, nil, c.Signature(), c.Value.Type(), full, site, resT)
+				}
+				x.errs = append(x.errs, fmt.Sprintf("%s: contract %s named by 'use' not found", site, k))
+			}
+		}
 		if ctr := x.eng.specs.Contracts[key]; ctr != nil {
 			return x.applyContract(fr, st, ctr, nil, c.Signature(), c.Value.Type(), full, site, resT)
 		}
@@ -57,7 +66,12 @@ func (x *FnCtx) call(fr *Frame, st *State, in ssa.Value, c *ssa.CallCommon) Valu
 					}
 				}
 				if m != nil {
-					st.pc = x.tb.And(st.pc, x.tb.Eq(x.typeOf(recv), x.typeTag(impl[0])))
+					if _, isPtr := impl[0].(*types.Pointer); isPtr {
+						st.pc = x.tb.And(st.pc, x.tb.Eq(x.typeOf(recv), x.typeTag(impl[0])))
+					} else {
+						// methods with value receivers: the interface may hold T or *T; both keep the struct at recv
+						st.pc = x.tb.And(st.pc, x.tb.Or(x.tb.Eq(x.typeOf(recv), x.typeTag(impl[0])), x.tb.Eq(x.typeOf(recv), x.typeTag(types.NewPointer(impl[0])))))
+					}
 					if m.Signature.Recv() != nil {
 						if _, precv := m.Signature.Recv().Type().(*types.Pointer); !precv {
 							full[0] = StructV{H: st.heap.Clone(), Ref: recv, T: m.Signature.Recv().Type()}
@@ -115,6 +129,19 @@ func (x *FnCtx) callFunction(fr *Frame, st *State, callee *ssa.Function, args []
 				recvT = callee.Signature.Recv().Type()
 			}
 			return x.applyContract(fr, st, ctr, callee, callee.Signature, recvT, args, site, resT)
+		}
+	}
+	if fr.ctr != nil && fr.depth == 0 {
+		if k, ok := fr.ctr.Use[strings.TrimPrefix(site, fr.prefix)]; ok {
+			if ctr := x.eng.specs.Contracts[k]; ctr != nil {
+				x.usedAssumed["call site "+site+" of "+shortFn(x.key)+": "+k] = true
+				var recvT types.Type
+				if callee.Signature.Recv() != nil {
+					recvT = callee.Signature.Recv().Type()
+				}
+				return x.applyContract(fr, st, ctr, callee, callee.Signature, recvT, args, site, resT)
+			}
+			x.errs = append(x.errs, fmt.Sprintf("%s: contract %s named by 'use' not found", site, k))
 		}
 	}
 	if ctr := x.eng.specs.Contracts[key]; ctr != nil && !ctr.Inline {
@@ -676,8 +703,7 @@ func (x *FnCtx) havocItems(st *State, items []modItem) {
 			x.havocObject(st, it.ref, it.t)
 		case "elems":
 			if isStruct(it.et) {
-				x.abstracted("modifies on slice-of-struct elements: havoc all")
-				x.havocAll(st)
+				x.havocStructElems(st, it.sl, it.et)
 			} else {
 				x.havocElems(st, it.sl, it.et)
 			}
@@ -703,6 +729,53 @@ func (x *FnCtx) havocItems(st *State, items []modItem) {
 				st.ghost["$"+g.Name] = x.tb.Fresh("hv.$"+g.Name, x.sortOf(t))
 			}
 		}
+	}
+}
+
+// scalarFieldMaps lists the heap maps (with their sorts) holding the scalar / slice-header fields of
+// struct type t and of the structs embedded in it by value.
+func (x *FnCtx) scalarFieldMaps(t types.Type, out map[string]*Sort) {
+	l := layoutOf(t)
+	for i := range l.Fields {
+		fi := &l.Fields[i]
+		switch u := fi.T.Underlying().(type) {
+		case *types.Struct:
+			x.scalarFieldMaps(fi.T, out)
+		case *types.Array:
+			if isStruct(u.Elem()) {
+				x.scalarFieldMaps(u.Elem(), out)
+			}
+			// arrays of scalars live in E.* keyed by the array reference (handled by the caller)
+		case *types.Slice:
+			base := fieldMap(fi)
+			is := x.intSort()
+			out[base+"#arr"] = ArraySort(IntSort, IntSort)
+			out[base+"#off"] = ArraySort(IntSort, is)
+			out[base+"#len"] = ArraySort(IntSort, is)
+			out[base+"#cap"] = ArraySort(IntSort, is)
+		default:
+			out[fieldMap(fi)] = x.fieldMapSort(fi.T)
+		}
+	}
+}
+
+// havocStructElems: the elements sl[0:len] of a slice of structs get arbitrary field values; every
+// other object keeps its fields (frame axiom over the slot range of the elements).
+func (x *FnCtx) havocStructElems(st *State, sl SliceV, et types.Type) {
+	tb := x.tb
+	slot := slotSize(et)
+	lo := tb.Add(sl.Arr, tb.Mul(x.toInt(sl.Off), tb.IntC(slot)))
+	hi := tb.Add(lo, tb.Mul(x.toInt(sl.Len), tb.IntC(slot)))
+	maps := map[string]*Sort{}
+	x.scalarFieldMaps(et, maps)
+	for _, name := range sortedKeys(maps) {
+		srt := maps[name]
+		old := x.heapGet(st.heap, name, srt)
+		nw := tb.Fresh("hv."+shortKey(name), srt)
+		x.eng.qctr++
+		k := tb.Var(fmt.Sprintf("fk?%d", x.eng.qctr), IntSort)
+		st.pc = tb.And(st.pc, tb.Forall([]*Term{k}, tb.Implies(tb.Or(tb.Lt(k, lo), tb.Le(hi, k)), tb.Eq(tb.Select(nw, k), tb.Select(old, k)))))
+		st.heap.m[name] = nw
 	}
 }
 
@@ -785,6 +858,17 @@ func (x *FnCtx) frameObligations(name string, entry, exit *State, items []modIte
 				case "cell":
 					if k == "C."+elemKey(it.t) {
 						allowed = append(allowed, tb.Eq(key, it.ref))
+					}
+				case "elems":
+					if isStruct(it.et) {
+						maps := map[string]*Sort{}
+						x.scalarFieldMaps(it.et, maps)
+						if _, ok := maps[k]; ok {
+							slot := slotSize(it.et)
+							lo := tb.Add(it.sl.Arr, tb.Mul(x.toInt(it.sl.Off), tb.IntC(slot)))
+							hi := tb.Add(lo, tb.Mul(x.toInt(it.sl.Len), tb.IntC(slot)))
+							allowed = append(allowed, tb.And(tb.Le(lo, key), tb.Lt(key, hi)))
+						}
 					}
 				}
 			}
@@ -1034,6 +1118,13 @@ func (x *FnCtx) backEdge(fr *Frame, st *State, li *loopInfo, pre *State, decr []
 	if ls.HasMod {
 		mec := &EvalCtx{x: x, fn: fr.fn, pkg: pkgOf(fr.fn), cur: pre, old: fr.entry, params: x.frameParams(fr), frame: fr, oldA: fr.entry.heap.A}
 		items := x.resolveModifies(ls.Modifies, mec, name)
+		x.frameObligations(name, pre, st, items)
+	} else if fr.ctr != nil && fr.ctr.HasMod && fr.depth == 0 {
+		// the loop head was havocked with the function's own modifies clause: the body must not change
+		// anything else - in particular not objects this function allocated before the loop, which the
+		// frame check at the returns would accept as fresh
+		mec := &EvalCtx{x: x, fn: fr.fn, pkg: pkgOf(fr.fn), cur: fr.entry, old: fr.entry, params: x.frameParams(fr), oldA: fr.entry.heap.A}
+		items := x.resolveModifies(fr.ctr.Modifies, mec, name)
 		x.frameObligations(name, pre, st, items)
 	}
 }
